@@ -266,6 +266,9 @@ Proof.
     rewrite join_split. reflexivity.
 Qed.
 
+Theorem boundary_iff_labels h r : boundary h r <-> prefix beq (dom_labels r) (dom_labels h) = true.
+Proof. split; [apply boundary_labels|apply labels_boundary]. Qed.
+
 (** *** the oracle of the correspondence run holds on every answer of the model *)
 Lemma str_suffix_app p r : str_suffix r (p ++ r) = true.
 Proof.
